@@ -33,7 +33,7 @@ import (
 //	cfgsel <spec>                  a config selector returning the scripted error
 //	creds <dial|call> <spec>       per-RPC credentials returning the scripted error
 //	dial <spec> <failfast 0|1>     the dialer returns the scripted error
-//	stream <scenario>              srvstop | cancel | deadline | srvst.<code> | srvplain | clean
+//	stream <scenario>              srvstop | cancel | deadline | srvst.<code> | srvplain | clean | sendretry.<maxAttempts>
 //
 // Answers are canon values (nil | eof | st:<code> | raw), one per API call made.
 type reGS struct{ st *status.Status }
@@ -208,6 +208,9 @@ func (s *sRPCErr) Op(f []string) string {
 			srv.RegisterService(&grpc.ServiceDesc{ServiceName: "verif.Err", HandlerType: (*any)(nil),
 				Streams: []grpc.StreamDesc{{StreamName: "Stream", ClientStreams: true, ServerStreams: true,
 					Handler: func(_ any, ss grpc.ServerStream) error {
+						if strings.HasPrefix(scenario, "sendretry.") {
+							return status.Error(codes.Unavailable, "attempt refused") // trailers-only, before reading
+						}
 						var in emptypb.Empty
 						if err := ss.RecvMsg(&in); err != nil {
 							return err
@@ -237,6 +240,10 @@ func (s *sRPCErr) Op(f []string) string {
 			} else {
 				copts = append(copts, grpc.PerRPCCredentials(c))
 			}
+		}
+		if strings.HasPrefix(scenario, "sendretry.") { // sendretry.<maxAttempts>: UNAVAILABLE is retryable
+			dopts = append(dopts, grpc.WithDefaultServiceConfig(`{"methodConfig":[{"name":[{}],"retryPolicy":{"maxAttempts":`+scenario[10:]+
+				`,"initialBackoff":"0.01s","maxBackoff":"0.01s","backoffMultiplier":1,"retryableStatusCodes":["UNAVAILABLE"]}}]}`))
 		}
 		cc, err := grpc.NewClient("passthrough:///creds", dopts...)
 		if err != nil {
@@ -291,6 +298,13 @@ func (s *sRPCErr) Op(f []string) string {
 			default:
 				out = append(out, name+"=HUNG")
 			}
+		}
+		if strings.HasPrefix(scenario, "sendretry.") {
+			for i := 1; i <= 5; i++ {
+				call("send"+strconv.Itoa(i), func() error { return st.SendMsg(&emptypb.Empty{}) })
+			}
+			call("recv", func() error { return st.RecvMsg(&emptypb.Empty{}) })
+			return strings.Join(out, " ")
 		}
 		call("send", func() error { return st.SendMsg(&emptypb.Empty{}) })
 		switch scenario {
